@@ -385,8 +385,10 @@ def filter_layer(e3):
         return z3.Or(*alts)
     shapes = [(1, 2), (2, 1)]
     for op in ("describe_counter", "describe_gauge", "describe_histogram", "register_counter", "register_gauge", "register_histogram"):
-        for reconf in ("case_insensitive", "add_pattern"):
-            for plens in (shapes if op in ("describe_counter", "register_histogram") else shapes[:1]):
+        for reconf in ("case_insensitive", "add_pattern", "case_only", "dfa_only"):
+            if reconf in ("case_only", "dfa_only") and op not in ("describe_counter", "register_histogram", "register_gauge"):
+                continue        # each setter on its own between the two layer() calls (a cache keyed on the others would hide behind them)
+            for plens in (shapes if op in ("describe_counter", "register_histogram") and reconf in ("case_insensitive", "add_pattern") else shapes[:1]):
                 op_b = [b for b in P.by_last[op] if b.impl and b.impl[1] == "Filter"][0]
                 p0 = tuple(z3.BitVec(f"pat0_{i}", 32) for i in range(plens[0]))
                 p1 = tuple(z3.BitVec(f"pat1_{i}", 32) for i in range(plens[1]))
@@ -395,7 +397,7 @@ def filter_layer(e3):
 
                 def on_model(ob, model, p0=p0, p1=p1, nm=nm, op=op, reconf=reconf):
                     t = lambda b: int(z3.is_true(model.eval(b, model_completion=True)))
-                    inputs = {"op": OPS.index(op), "reconf": 0 if reconf == "case_insensitive" else 1, "ci0": t(ci0), "ci1": t(ci1), "dfa0": t(dfa0), "dfa1": t(dfa1)}
+                    inputs = {"op": OPS.index(op), "reconf": {"case_insensitive": 0, "add_pattern": 1, "case_only": 2, "dfa_only": 3}[reconf], "ci0": t(ci0), "ci1": t(ci1), "dfa0": t(dfa0), "dfa1": t(dfa1)}
                     inputs.update(text_inputs(model, "pat0", p0)); inputs.update(text_inputs(model, "pat1", p1)); inputs.update(text_inputs(model, "name", nm))
                     ob.sample = dict(inputs)
                     replay_native(ob, "c13_filter", ob.name.split(":")[1], inputs)
@@ -439,6 +441,10 @@ def filter_layer(e3):
                     if reconf == "case_insensitive":
                         yield ("call", ci_b, [Ptr(("static", "fl")), ci1])
                         yield ("call", dfa_b, [Ptr(("static", "fl")), dfa1])
+                    elif reconf == "case_only":
+                        yield ("call", ci_b, [Ptr(("static", "fl")), ci1])
+                    elif reconf == "dfa_only":
+                        yield ("call", dfa_b, [Ptr(("static", "fl")), dfa1])
                     else:
                         yield ("call", add_b, [Ptr(("static", "fl")), MS.sstr(p1)])
                     f2 = yield ("call", layer_b, [Ptr(("static", "fl")), Native("rec", 2)])
@@ -453,8 +459,10 @@ def filter_layer(e3):
                 done = [l for l in leaves if l.status == "done"]
                 other = z3.Or(*[l.taken() for l in leaves if l.status != "done"] or [z3.BoolVal(False)])
                 want1 = z3.Not(contains(nm, p0, ci0))
-                if reconf == "case_insensitive":
+                if reconf in ("case_insensitive", "case_only"):
                     want2 = z3.Not(contains(nm, p0, ci1))
+                elif reconf == "dfa_only":
+                    want2 = z3.Not(contains(nm, p0, ci0))
                 else:
                     want2 = z3.Not(z3.Or(contains(nm, p0, ci0), contains(nm, p1, ci0)))
                 bad = []
@@ -474,7 +482,7 @@ def filter_layer(e3):
                             inert = z3.And(inert, z3.BoolVal(is_noop) == z3.Not(want))
                     bad.append(z3.And(l.taken(), z3.Not(z3.And(fw[1] == want1, fw[2] == want2, cnt[1] <= 1, cnt[2] <= 1, inert))))
                 cname = f"c13_filter_{op}_{reconf}_p{plens[0]}{plens[1]}"
-                bounds = (f"FilterLayer::from_patterns([p0]); case_insensitive(b0); use_dfa(d0); layer(r1); {'case_insensitive(b1); use_dfa(d1)' if reconf == 'case_insensitive' else 'add_pattern(p1)'}; layer(r2); then {op} "
+                bounds = (f"FilterLayer::from_patterns([p0]); case_insensitive(b0); use_dfa(d0); layer(r1); { {'case_insensitive': 'case_insensitive(b1); use_dfa(d1)', 'case_only': 'case_insensitive(b1)', 'dfa_only': 'use_dfa(d1)', 'add_pattern': 'add_pattern(p1)'}[reconf] }; layer(r2); then {op} "
                           f"through both filters; patterns of {plens[0]} and {plens[1]} printable ASCII characters, name of 3 printable ASCII characters, flags: all symbolic; {len(done)} paths")
                 specs = [dict(name=f"{cname}:witness", desc="completes", bounds=bounds, cons=ascii_ + [z3.Or(*[l.taken() for l in done] or [z3.BoolVal(False)])], expect_unsat=False),
                          dict(name=f"{cname}:returns", desc="panics", bounds=bounds, cons=ascii_ + [other], expect_unsat=True),
